@@ -245,7 +245,10 @@ pub fn shrink_value(v: &Value) -> Vec<Value> {
 
 /// Positions for C05: playouts at all stages, constructed tactical positions, sparse
 /// endgames (for the deeper fixed searches), terminal positions.
-pub fn pick_position(rng: &mut Rng, sparse: bool) -> crate::rules::Pos {
+pub fn pick_position(rng: &mut Rng, sparse: bool, promo: bool) -> crate::rules::Pos {
+    if promo {
+        return gen::promotion_choice_position(rng);
+    }
     if sparse {
         return if rng.chance(1, 2) { gen::sparse_position(rng) } else { gen::advanced_pawn_position(rng) };
     }
@@ -268,10 +271,15 @@ pub fn pick_position(rng: &mut Rng, sparse: bool) -> crate::rules::Pos {
 }
 
 pub fn run(ctx: &Ctx) -> i32 {
-    let positions = ctx.n(160, 2400);
+    let positions = ctx.n(400, 6000);
     let (ref_tree_budget, max_engine_nodes): (u64, u64) = match ctx.tier {
         Tier::Quick => (60_000, 200_000),
         Tier::Thorough => (600_000, 2_000_000),
+    };
+    // the deeper fixed-depth searches run on sparse positions whose leaves are cheap
+    let ref_tree_budget_fixed: u64 = match ctx.tier {
+        Tier::Quick => 300_000,
+        Tier::Thorough => 1_500_000,
     };
     let rep = run_batch(positions, ctx.workers, |i| {
         let seed = derive(ctx.seed, "C05", i);
@@ -279,16 +287,24 @@ pub fn run(ctx: &Ctx) -> i32 {
         let mut res = SimResult::default();
         let mut log_hash = FNV_INIT;
         with_bench(|bench| {
-            bench.reference.tree_node_budget = ref_tree_budget;
+            // of five sims: two general iterative, one promotion-choice iterative, two fixed-depth
+            let fixed = i % 5 >= 3;
+            let promo = i % 5 == 2;
+            bench.reference.tree_node_budget = if fixed { ref_tree_budget_fixed } else { ref_tree_budget };
             bench.reference.q_node_budget = 100_000;
             bench.max_engine_nodes = max_engine_nodes;
-            let fixed = i % 4 == 3;
             let mut tries = 0;
             let (fen, depth) = loop {
                 tries += 1;
-                let p = pick_position(&mut rng, fixed);
+                let p = pick_position(&mut rng, fixed, promo);
                 let fen = fen_for_search(&p);
-                let depth: u8 = if fixed { rng.range(4, 5) as u8 } else { rng.range(1, 3) as u8 };
+                let depth: u8 = if fixed {
+                    if rng.chance(2, 3) { 5 } else { 4 }
+                } else if promo {
+                    rng.range(2, 3) as u8
+                } else {
+                    rng.range(1, 3) as u8
+                };
                 match prepare_pos(bench, &fen, depth) {
                     Ok(()) => break (fen, depth),
                     Err(RefError::EngineCrash(m)) => {
@@ -311,6 +327,9 @@ pub fn run(ctx: &Ctx) -> i32 {
                     }
                 }
             };
+            if promo {
+                res.probes.add("promotion_choice_positions", 1);
+            }
             res.probes.add("mate_inside_tree", bench.reference.probes_mate_inside_tree.min(1));
             res.probes.add("stalemate_inside_tree", bench.reference.probes_stalemate_inside_tree.min(1));
             bench.reference.probes_mate_inside_tree = 0;
@@ -366,7 +385,7 @@ pub fn run(ctx: &Ctx) -> i32 {
     });
     let ev = Evidence {
         level: "exploration",
-        rule: "Positions: seeded playouts of the rules model at all stages, constructed tactical/terminal positions, sparse endgames; kept when the unpruned reference fits its node budget. Each position: find_best_move depth 1..3 (3 of 4 sims) or one fixed-depth search at depth 4..5 on a sparse position (accepted only when no deeper cached result was reused), each fault-free under two key sets and under five buggified-cache configurations (probe-miss 1%/10%/50%, store-drop 0/10%/30%). Oracle: norm(score)==M and the move attains M. A case = (position, depth, mode, fault configuration) that was compared; all are non-trivial.".into(),
+        rule: "Positions: seeded playouts of the rules model at all stages, constructed tactical/terminal positions, sparse endgames; kept when the unpruned reference fits its node budget. Of five sims two search a general position with find_best_move to depth 1..3, one a promotion-choice position (pawn on the 7th, both kings near the promotion square: stalemate tricks and mating under-promotions) to depth 2..3, two run one fixed-depth search at depth 4..5 on a sparse position (accepted only when no deeper cached result was reused), each fault-free under two key sets and under five buggified-cache configurations (probe-miss 1%/10%/50%, store-drop 0/10%/30%). Oracle: norm(score)==M and the move attains M. A case = (position, depth, mode, fault configuration) that was compared; all are non-trivial.".into(),
         extra: serde_json::Map::new(),
         assumptions: vec![
             "reference M takes the engine's move generator, make_move, static evaluation and full-window quiescence as given".into(),
